@@ -5,6 +5,7 @@ import (
 	"encoding/json"
 	"fmt"
 	"regexp"
+	"sort"
 	"strconv"
 	"strings"
 	"sync"
@@ -341,12 +342,16 @@ func maskStderr(b []byte) string {
 	return s
 }
 
+var siblingTempRe = regexp.MustCompile(`\.yq-tmp-\d+`)
+
 func filesDigest(m map[string]FileState) string {
-	var b strings.Builder
-	for _, k := range sortedKeys(m) {
-		b.WriteString(k + "=" + m[k].String() + ";")
+	// temp files left behind by a killed run carry random names (drawn by the Go runtime): compare them by content
+	var parts []string
+	for k, v := range m {
+		parts = append(parts, siblingTempRe.ReplaceAllString(k, ".yq-tmp-N")+"="+v.String())
 	}
-	return b.String()
+	sort.Strings(parts)
+	return strings.Join(parts, ";")
 }
 
 func (C18) Judge(c *Ctx, sc *Scenario) []Violation {
@@ -473,7 +478,11 @@ func (C18) Judge(c *Ctx, sc *Scenario) []Violation {
 		lib := sc.Lib
 		raced := false
 		var res *LibResult
-		for attempt := 0; attempt < 3 && !raced; attempt++ {
+		attempts := 1 // every process already repeats the pool in 4 rounds x 3 goroutines x 8 iterations
+		if c.Quiet {
+			attempts = 3 // minimisation and replay try harder before they call a scenario race-free
+		}
+		for attempt := 0; attempt < attempts && !raced; attempt++ {
 			res = c.W.RunLib(c.W.LibRace, "race", sc, 0, RunOpts{Slot: c.Slot}, "GORACE=halt_on_error=0 exitcode=66")
 			if !c.Quiet {
 				c.Stats.Add("race_detector_processes", 1)
